@@ -172,6 +172,12 @@ pub struct World {
     pub handles: i32,
     /// An abandonment happened since the last exact at-rest check.
     pub abandon_mark: bool,
+    /// Sequential (task-level) driver: nothing else runs while an operation
+    /// that has no await executes.
+    pub task_level: bool,
+    /// Counts begin_op / end_op calls (to see whether anything else started
+    /// or finished during an operation).
+    pub op_ticks: u64,
     /// Timeouts / missing runtimes are part of the scenario (C10).
     pub allow_timeouts: bool,
     /// Virtual time (maintained by the H-time driver) and a log of env calls.
@@ -234,6 +240,8 @@ pub fn init_world(cfg: PoolCfg, base: &[&'static str]) {
             overlap: false,
             handles: 0,
             abandon_mark: false,
+            task_level: false,
+            op_ticks: 0,
             allow_timeouts: false,
             now: 0,
             env_log: Vec::new(),
@@ -348,10 +356,12 @@ impl World {
     }
 
     pub fn begin_op(&mut self, who: usize, kind: OpKind) {
+        self.op_ticks += 1;
         self.ops.insert(who, (kind, None));
     }
 
     pub fn end_op(&mut self, who: usize) {
+        self.op_ticks += 1;
         self.ops.remove(&who);
     }
 
@@ -1150,18 +1160,30 @@ pub fn op_release(who: usize) -> bool {
     true
 }
 
-pub fn op_take(who: usize) -> bool {
+pub fn op_take(who: usize, pool: Option<&Pool<Mgr>>) -> bool {
     let o = w(|w| w.hands.get_mut(&who).and_then(|v| v.pop()));
     let Some(o) = o else { return false };
     let id = o.id;
     trace!("  caller {} takes object {}", who, id);
-    w(|w| {
+    // "shrinks the pool by one": the pool's own size figure before and after,
+    // compared when nothing else can have changed it in between (task level,
+    // or no other operation in progress or begun meanwhile)
+    let size_before = pool.and_then(|p| p.verif_snapshot()).map(|s| s.size);
+    let (ticks0, alone0) = w(|w| {
         w.begin_op(who, OpKind::Take);
         w.takes_retains += 1;
         w.objs[id].loc = Loc::Taken;
+        (w.op_ticks, w.ops.len() == 1 && w.creating == 0)
     });
     let inner = Object::take(o);
+    let size_after = pool.and_then(|p| p.verif_snapshot()).map(|s| s.size);
     w(|w| {
+        let undisturbed = w.task_level || (alone0 && w.op_ticks == ticks0 && w.ops.len() == 1 && w.creating == 0);
+        if let (Some(b), Some(a), true) = (size_before, size_after, undisturbed) {
+            if a.wrapping_add(1) != b {
+                w.violate(&["C09"], "take-did-not-shrink-pool", format!("Object::take of object {}: the pool's size went from {} to {} (status().size must drop by exactly one)", id, b, a));
+            }
+        }
         if inner.id != id {
             w.violate(&["C09"], "take-wrong-object", format!("Object::take returned object {} instead of {}", inner.id, id));
         }
